@@ -6,6 +6,7 @@ package sim
 
 import (
 	"context"
+	"os"
 	"fmt"
 	"io"
 	"time"
@@ -224,7 +225,13 @@ func (s *simStream) runFork(ctx context.Context) error {
 	c := s.env.Chain
 	f := c.Fork
 	// final linear prefix start..Base
-	for n := max(s.start, c.First); n <= f.Base; n++ {
+	// The two blocks below the fork region go through the forkable as well (Base-1 as its inclusive
+	// LIB, Base as an ordinary linked block) so that Base can be reported as a reorg junction.
+	libN := f.Base
+	if f.Base > c.First && f.Base > 0 {
+		libN = f.Base - 1
+	}
+	for n := max(s.start, c.First); n < libN; n++ {
 		b := c.At(n)
 		ref := b.Ref()
 		obj := &stepObj{step: bstream.StepNewIrreversible, cursor: &bstream.Cursor{Step: bstream.StepNewIrreversible, Block: ref, LIB: ref, HeadBlock: ref}}
@@ -245,6 +252,9 @@ func (s *simStream) runFork(ctx context.Context) error {
 			cb = &CBlock{Num: blk.Number, ID: blk.Id, Parent: blk.ParentId}
 		}
 		so := &stepObj{step: fo.Step(), cursor: fo.Cursor(), junction: fo.ReorgJunctionBlock()}
+		if os.Getenv("SIM_DUMPMSGS") == "1" {
+			fmt.Printf("FORKABLE %s %s junction=%v\n", fo.Step(), blk.Id, fo.ReorgJunctionBlock())
+		}
 		if cb.Num < s.start {
 			return nil
 		}
@@ -253,8 +263,21 @@ func (s *simStream) runFork(ctx context.Context) error {
 			return err
 		}
 		return nil
-	}), forkable.HoldBlocksUntilLIB(), forkable.WithWarnOnUnlinkableBlocks(1000), forkable.WithInclusiveLIB(base.Ref()), forkable.WithLogger(zap.NewNop()))
-	for _, b := range f.Arrival {
+	}), forkable.HoldBlocksUntilLIB(), forkable.WithWarnOnUnlinkableBlocks(1000), forkable.WithInclusiveLIB(c.At(libN).Ref()), forkable.WithLogger(zap.NewNop()))
+	byID[base.ID] = base
+	feed := []*CBlock{}
+	if libN != f.Base {
+		lb := *c.At(libN)
+		lb.Lib = libN
+		byID[lb.ID] = &lb
+		feed = append(feed, &lb)
+		bb := *base
+		bb.Lib = libN
+		feed = append(feed, &bb)
+	} else {
+		feed = append(feed, base)
+	}
+	for _, b := range append(feed, f.Arrival...) {
 		if err := ctx.Err(); err != nil {
 			return err
 		}
